@@ -87,8 +87,41 @@ class LinkHistory(Leg):
             H.op_stats(case["ops"], obs, acc)
 
 
+class SmallScope(LinkHistory):
+    """thorough tier only: the complete space of short histories over a fixed pool"""
+    name = "smallscope"
+    exhaustive = True
+    quick_n = 0
+    thorough_n = 1
+    shard = 400
+    rule = ("EXHAUSTIVE for this bounded space (thorough tier): every history of length <= 3 over the alphabet {v1/v2 assignment, "
+            "add_to_link, remove_from_link, add_vertex, unlink_from with each of {vertex 0, vertex 1, None}; unlink(a, b); "
+            "link_from_to(a, DirectedEdge|UnDirectedEdge, b, dontdup)} on the pool {2 vertices, 1 directed edge 0->1}")
+    SEED = [["NV", False, [], []], ["NV", False, [], []], ["NE", "KDir", 0, 1]]
+
+    def alphabet(self):
+        al = []
+        for x in (0, 1, None):
+            al += [["SV1", 2, x], ["SV2", 2, x], ["LAV", 2, x], ["LUF", 2, x]]
+        for v in (0, 1):
+            al += [["A2L", v, 2], ["RFL", v, 2]]
+        for a in (0, 1):
+            for b in (0, 1):
+                al.append(["UNL", a, b, True])
+                for k in ("KDir", "KUnd"):
+                    for dd in (False, True):
+                        al.append(["LFT", a, k, b, dd])
+        return al
+
+    def generate(self, rng, n):
+        if n <= 0:
+            return
+        for ops in H.small_scope(self.SEED, self.alphabet(), 3):
+            yield {"ops": ops}
+
+
 class C01(Prop):
     pid = "C01"
-    legs = [LinkHistory()]
+    legs = [LinkHistory(), SmallScope()]
     assumptions = ["histories of well-typed calls (ids allocated, vertex where a vertex is expected)",
                    "no user subclass overrides __eq__/__hash__; objects compare by identity"]
